@@ -252,7 +252,9 @@ def deserialize_multifield_wrapper(
     return deserialized
 
 
-def deserialize_map(map_field, source_val, name, camel_case_convert=False):
+def deserialize_map(
+    map_field, source_val, name, camel_case_convert=False, keep_undefined=True
+):
     if not isinstance(source_val, dict):
         raise TypeError(f"{name}: Got {wrap_val(source_val)}; Expected a dictionary")
     if map_field.items:
@@ -277,7 +279,10 @@ def deserialize_map(map_field, source_val, name, camel_case_convert=False):
 
     for key, val in source_val.items():
         ignore_none = getattr(value_field, IGNORE_NONE_VALUES, False)
-        deserialized_val = entry(value_field, val, ignore_none=ignore_none)
+        # a structure stored as a map value keeps undefined keys exactly when its container does
+        deserialized_val = entry(
+            value_field, val, ignore_none=ignore_none, keep_undefined=keep_undefined
+        )
         res[entry(key_field, key)] = deserialized_val
     return res
 
@@ -402,7 +407,11 @@ def deserialize_single_field(  # pylint: disable=too-many-branches
             raise ValueError(f"{name}: Got {wrap_val(source_val)}; {str(e)}") from e
     elif isinstance(field, Map):
         value = deserialize_map(
-            field, source_val, name, camel_case_convert=camel_case_convert
+            field,
+            source_val,
+            name,
+            camel_case_convert=camel_case_convert,
+            keep_undefined=keep_undefined,
         )
     elif isinstance(field, SerializableField):
         try:
